@@ -55,6 +55,8 @@ type Clause struct {
 	H Atom  `json:"h"`
 	B []any `json:"b"`
 	T []any `json:"t"`
+	// Ht is an optional head annotation: ["eternal"] prints @[_], ["eternal2"] prints @[_, _]
+	Ht []any `json:"ht,omitempty"`
 }
 
 // Decode parses JSON keeping integers exact.
@@ -448,6 +450,14 @@ func TransformText(t []any) string {
 // ClauseText renders a clause (with final period).
 func ClauseText(c Clause) string {
 	s := AtomText(c.H)
+	if len(c.Ht) > 0 {
+		switch c.Ht[0].(string) {
+		case "eternal":
+			s += "@[_]"
+		case "eternal2":
+			s += "@[_, _]"
+		}
+	}
 	if len(c.B) > 0 {
 		parts := make([]string, len(c.B))
 		for i, l := range c.B {
